@@ -232,7 +232,13 @@ class Screen(_raw_display_base.Screen):
         if self.focus_reporting:
             self.write(escape.DISABLE_FOCUS_REPORTING)
 
-        signals.emit_signal(self, INPUT_DESCRIPTORS_CHANGED)
+        # a connected MainLoop re-hooks here; that must not re-parse a pending partial sequence, i.e. must not run
+        # the user's input callbacks, before the terminal has been restored
+        partial_codes, self._partial_codes = self._partial_codes, []
+        try:
+            signals.emit_signal(self, INPUT_DESCRIPTORS_CHANGED)
+        finally:
+            self._partial_codes = partial_codes
 
         self.signal_restore()
 
